@@ -158,11 +158,11 @@ Fixpoint apo_loop (fuel : nat) (buf : list N) (t num asn : N) : pres (N * N * N)
       | O => POk (t, num, asn)
       | S fuel' =>
           match r1 with
-          | [] => PPanic                               (* read_u8().unwrap() *)
+          | [] => POk (t, num, asn)                    (* truncated header: the scan ends (a62a64e) *)
           | num' :: r2 =>
-              if N.of_nat (length r2) <? 4 * num' then PPanic   (* read_u32().unwrap() *)
+              if N.of_nat (length r2) <? 4 * num' then POk (t, num, asn)   (* segment runs past the end *)
               else
-                let asn' := if num' =? 0 then asn
+                let asn' := if num' =? 0 then 0
                             else be32 (firstn 4 (skipn (N.to_nat (4 * (num' - 1))) r2)) in
                 apo_loop fuel' (skipn (N.to_nat (4 * num')) r2) t' num' asn'
           end
